@@ -239,6 +239,8 @@ SdfHolds(c) ==
     CASE c = "panic"  -> R.panic = ""
       [] c = "sign"   -> \A i \in 1..Len(R.qs) : R.qs[i].onsurf \/ R.qs[i].sign
       [] c = "agree"  -> \A i \in 1..Len(R.qs) : R.qs[i].agree
+      \* |SDF| is the minimum over the faces (brute force by the harness, where it has such an oracle)
+      [] c = "distance" -> \A i \in 1..Len(R.qs) : R.qs[i].orc
       [] c = "point"  -> \A i \in 1..Len(R.qs) : R.qs[i].pdist /\ R.qs[i].psurf
       [] c = "normal" -> \A i \in 1..Len(R.qs) : R.qs[i].nunit /\ R.qs[i].nout /\ R.qs[i].ncons
       [] c = "exact"  -> \A i \in 1..Len(R.qs) : SdfExact(R.qs[i]) /\ BoxNormalOK(R.qs[i])
@@ -325,7 +327,7 @@ Holds(c) == CASE R.kind = "solid" -> SolidHolds(c)
               [] R.kind = "sdf" -> SdfHolds(c)
               [] R.kind = "collider" -> ColHolds(c)
               [] OTHER -> TRUE
-Clauses == {"panic", "bounds", "leak", "cut", "sign", "agree", "point", "normal", "exact", "count", "hits", "first",
+Clauses == {"panic", "bounds", "leak", "cut", "sign", "agree", "distance", "point", "normal", "exact", "count", "hits", "first",
             "parity", "ball"}
 Fails == {c \in Clauses : ~Holds(c)}
 
